@@ -15,6 +15,7 @@ import (
 	"os"
 	"regexp"
 	"strconv"
+	"strings"
 	"time"
 
 	"github.com/beevik/etree"
@@ -983,9 +984,13 @@ func (req *IdpAuthnRequest) WriteResponse(w http.ResponseWriter) error {
 // getSPEncryptionCert returns the certificate which we can use to encrypt things
 // to the SP in PEM format, or nil if no such certificate is found.
 func (req *IdpAuthnRequest) getSPEncryptionCert() (*x509.Certificate, error) {
+	// Use the first non-empty cert explicitly labeled for encryption. A descriptor
+	// whose certificate is missing or blank must not hide a later usable one,
+	// otherwise the assertion would be sent unencrypted to an SP that asked
+	// for encryption.
 	certStr := ""
 	for _, keyDescriptor := range req.SPSSODescriptor.KeyDescriptors {
-		if keyDescriptor.Use == "encryption" && len(keyDescriptor.KeyInfo.X509Data.X509Certificates) != 0 {
+		if keyDescriptor.Use == "encryption" && len(keyDescriptor.KeyInfo.X509Data.X509Certificates) != 0 && strings.TrimSpace(keyDescriptor.KeyInfo.X509Data.X509Certificates[0].Data) != "" {
 			certStr = keyDescriptor.KeyInfo.X509Data.X509Certificates[0].Data
 			break
 		}
@@ -995,7 +1000,7 @@ func (req *IdpAuthnRequest) getSPEncryptionCert() (*x509.Certificate, error) {
 	// non-empty cert we find.
 	if certStr == "" {
 		for _, keyDescriptor := range req.SPSSODescriptor.KeyDescriptors {
-			if keyDescriptor.Use == "" && len(keyDescriptor.KeyInfo.X509Data.X509Certificates) != 0 && keyDescriptor.KeyInfo.X509Data.X509Certificates[0].Data != "" {
+			if keyDescriptor.Use == "" && len(keyDescriptor.KeyInfo.X509Data.X509Certificates) != 0 && strings.TrimSpace(keyDescriptor.KeyInfo.X509Data.X509Certificates[0].Data) != "" {
 				certStr = keyDescriptor.KeyInfo.X509Data.X509Certificates[0].Data
 				break
 			}
